@@ -250,6 +250,35 @@ func fieldOfChan(ch ssa.Value) string {
 		}
 		return f0
 	}
+	// an accessor that hands back (a view of) a channel: `func (l latch) released() <-chan struct{} { return l }`
+	if call, ok := v.(*ssa.Call); ok {
+		if cal := staticCallee(&call.Call); cal != nil && cal.Blocks != nil && cal.Parent() == nil && cal.Signature.Results().Len() == 1 && curCtx != nil && curCtx.inModule(cal) {
+			f0, n := "", 0
+			for _, rv := range returnedBy(origin(cal), 0) {
+				for {
+					if ct, ok := rv.(*ssa.ChangeType); ok {
+						rv = ct.X
+						continue
+					}
+					break
+				}
+				f := ""
+				if prm, ok := rv.(*ssa.Parameter); ok {
+					for k, q := range origin(cal).Params {
+						if q == prm && k < len(call.Call.Args) {
+							f = fieldOfChan(call.Call.Args[k])
+						}
+					}
+				}
+				if f == "" || (n > 0 && f != f0) {
+					return ""
+				}
+				f0 = f
+				n++
+			}
+			return f0
+		}
+	}
 	return ""
 }
 
